@@ -138,3 +138,60 @@ pub fn run_ops<E: EndianParse>(e: E, reader: Reader, ops: &[Q]) -> Result<Vec<Op
     let mut s = open_stream_as(e, reader)?;
     Ok(ops.iter().map(|q| queries::eval_stream(&mut s, q)).collect())
 }
+
+/// By-name queries derived from the file's own section-name table, read with the independent reader: a section's
+/// name, the name plus the bytes that follow it up to the second NUL (a query with an interior NUL that lines up with
+/// two adjacent entries), a proper prefix, an extension. Only valid UTF-8 (the API takes &str).
+pub fn file_name_queries(data: &[u8], c: &mut Choice, k: usize) -> Vec<Q> {
+    use verif_model::{elfw, refs};
+    let mut out = vec![];
+    let Some((enc, eh)) = refs::read_ehdr(data) else { return out };
+    if eh.e_shoff == 0 {
+        return out;
+    }
+    let shs = elfw::shdr_size(enc);
+    let rd = |i: u64| -> Option<elfw::Shdr> {
+        let off = (eh.e_shoff as usize).checked_add((i as usize).checked_mul(shs)?)?;
+        if off.checked_add(shs)? > data.len() {
+            return None;
+        }
+        refs::read_shdr(enc, data, off)
+    };
+    let Some(s0) = rd(0) else { return out };
+    let n = if eh.e_shnum == 0 { s0.sh_size } else { eh.e_shnum as u64 };
+    let strndx = if eh.e_shstrndx == 0xffff { s0.sh_link as u64 } else { eh.e_shstrndx as u64 };
+    if n == 0 || strndx >= n {
+        return out;
+    }
+    let Some(st) = rd(strndx) else { return out };
+    let Some(tab) = (st.sh_offset as usize).checked_add(st.sh_size as usize).and_then(|e| data.get(st.sh_offset as usize..e)) else { return out };
+    for _ in 0..k {
+        let Some(h) = rd(c.below(n.min(4096))) else { continue };
+        let off = h.sh_name as usize;
+        if off >= tab.len() {
+            continue;
+        }
+        let Some(l1) = tab[off..].iter().position(|b| *b == 0) else { continue };
+        let bytes: Vec<u8> = match c.below(4) {
+            0 => tab[off..off + l1].to_vec(),
+            1 => {
+                // up to the second NUL
+                let rest = &tab[off + l1 + 1..];
+                match rest.iter().position(|b| *b == 0) {
+                    Some(l2) => tab[off..off + l1 + 1 + l2].to_vec(),
+                    None => continue,
+                }
+            }
+            2 => tab[off..off + l1.saturating_sub(1)].to_vec(),
+            _ => {
+                let mut v = tab[off..off + l1].to_vec();
+                v.push(b'x');
+                v
+            }
+        };
+        if let Ok(sname) = String::from_utf8(bytes) {
+            out.push(Q::ByName(sname));
+        }
+    }
+    out
+}
